@@ -52,11 +52,15 @@ def _tally(c, i):
                 ERR_KINDS[op + ':' + tok] += 1
 
 
+HOOK_LEGEND = {160: 'alloy-rlp encode 1-limb fast path', 161: '2-limb fast path', 162: 'general arm short form', 163: 'general arm long form (> 55 bytes)', 164: 'general arm single byte', 165: 'SCALE compact big-integer mode', 166: 'two-byte mode', 167: 'four-byte mode', 168: 'DER sign byte written', 169: 'postgres NUMERIC trailing zero digits trimmed'}
+
+
 def extra_checks(tier, rng, findings):
     """no extra checks; reports the tally of implementation outcome kinds collected during the run"""
     kinds = dict(sorted(ERR_KINDS.items()))
     distinct = sorted(set(k.split(':', 1)[1] for k in kinds if not k.startswith('exh:')))
-    return {'violations': [], 'known': {}, 'coverage': {'impl_outcome_kinds': kinds, 'distinct_error_kinds': distinct}}
+    return {'violations': [], 'known': {}, 'coverage': {'impl_outcome_kinds': kinds, 'distinct_error_kinds': distinct,
+                                                        'hook_legend': {str(k): v for k, v in HOOK_LEGEND.items()}}}
 
 
 def nontrivial(c, i):
@@ -97,7 +101,7 @@ def gen(rng, tier):
                 yield '%s %d %x' % (op, bits, v)
             for _ in range(40 if not thorough else 2000):
                 yield '%s %d %x' % (op, bits, struct_value(rng, bits))
-    n = 12000 if not thorough else 900000
+    n = 12000 if not thorough else 4000000
     for _ in range(n):
         bits = rng.choice(WIDTHS)
         yield '%s %d %x' % (rng.choice(OPS_ALL), bits, struct_value(rng, bits))
